@@ -1291,6 +1291,7 @@ func (st *State) makeInterface(v Val, from, to types.Type) Val {
 			r := app("mkstr", SInt, vc.typeID(from), x.T)
 			c := st.define("istr", r)
 			st.assume(tAnd(tNot(tEq(c, tInt(0))), tEq(app("typeof", SInt, c), vc.typeID(from))))
+			st.dyn[c.S] = dynInfo{from, v}
 			return TV{c, to}
 		}
 	case FuncV:
@@ -1302,6 +1303,7 @@ func (st *State) makeInterface(v Val, from, to types.Type) Val {
 			vc.strLits["fun."+fn] = "(Int) Int"
 			c := st.define("iptr", app(smtIdent(fn), SInt, x.Base))
 			st.assume(tAnd(tNot(tEq(c, tInt(0))), tEq(app("typeof", SInt, c), vc.typeID(from))))
+			st.dyn[c.S] = dynInfo{from, v}
 			return TV{c, to}
 		}
 		return TV{app("mkptr", SInt, vc.typeID(from), st.encodePtr(x)), to}
